@@ -203,7 +203,7 @@ fn multi_chain_zarr(seed: u64, case: u64, rep: &mut Report) {
     use crate::ctl;
     let mut r = Sm::new(seed, "C14-multi", case);
     let cfg = ctl::Cfg { gen_seed: seed, gen_tier: "quick".into(), preset: 0, seed: r.next() | 1, sched: 0, num_chains: 2 + r.below(2) as usize, num_cores: 2,
-        num_tune: 10 + r.below(8), num_draws: 10 + r.below(8), dim: 2, script: vec![], end_abort: false, poll_finish: false,
+        num_tune: 10 + r.below(8), num_draws: 10 + r.below(8), dim: 2, script: vec![], end_abort: false, poll_finish: false, zero_poll: false,
         failure: ctl::Failure::Split { x: 60 + r.below(80), period: 3 + r.below(3) } };
     let settings = || { let mut s = nuts_rs::DiagNutsSettings::default(); s.num_tune = cfg.num_tune; s.num_draws = cfg.num_draws; s.num_chains = cfg.num_chains; s.seed = cfg.seed; s.maxdepth = 4; s.store_divergences = case % 2 == 0; s };
     let replay = json!({"kind": "c14multi", "seed": seed, "case": case});
